@@ -56,6 +56,18 @@ CLAIMED = {
  "C14": ("exploration", E1_TECH,
          "From the getdata messages seen on all simulated connections: no second request for a txid inside the three-second window, none after its body arrived and none from stale tracker state after a block containing it was processed; when the asked peer stays silent and another connection that announced the txid inside the window shows activity after it, that connection is asked within 5 s.",
          E1_NOTE + " Requests caused by a fresh announcement after the transaction was confirmed are not judged (the node keeps no record of confirmed irrelevant transactions).", "6 C14, App. C"),
+ "C08": ("exploration",
+         "deterministic simulation: reference-model comparison of the real subscription filter over seeded operation histories and grammar-generated scripts; concurrent callers under the seeded baton scheduler with the recorded invoke/return history checked for linearizability (porcupine); and the whole-node transaction scenario with generated scripts and subscription histories",
+         "For every explored subscribe/unsubscribe history (raw or 20-byte form, lists with repeats, contract flag) and every generated transaction (grammar: direct and PUSHDATA1/2/4 pushes of any length incl. non-minimal, non-push opcodes, pushes past the end, truncated length fields, arbitrary truncation; Tokenized actions of 14 kinds in envelope v0/v1 for either protocol id) IsRelevant equals the independent byte-level walker over the reference multiset, never panics, matches nothing once everything is unsubscribed; concurrent histories are linearizable per component; in whole-node runs exactly the reference-relevant transactions are delivered.",
+         E1_NOTE + " Whether OP_0, OP_1..16, OP_1NEGATE and empty pushes count as data pushes is not judged (the universe avoids their hashes). The contract-action expectation is by construction of the generated output (the specification library builds it), not an independent parser.", "6 C08"),
+ "C15": ("exploration",
+         "deterministic simulation at the stream seam: generated message sequences of all 37 wire types written by the real serializers and read back through a simulated reader that fragments at tape-chosen points; every strict prefix decoded; stored transaction records through the simulated disk",
+         "Every generated message of every type decodes to a semantically equal value of the same type consuming exactly its own bytes regardless of fragmentation and of what follows it in the stream; every strict prefix of an encoding fails with an error (no panic, no success); type code, name and payload type are in bijection; stored transaction records survive save/fetch on the simulated disk and reject every strict prefix.",
+         "Sampling over generated field values. Transport is a simulated fragmenting reader; no scheduler is involved (single-threaded codec).", "6 C15"),
+ "C20": ("fault_enumeration",
+         "fault injection at the byte-stream and stored-record seams: for valid encodings of every client message type and every stored record, hostile count values are planted at every byte offset, plus every truncation, seeded bit flips and random tails; each case decoded by the real decoders in a child process that reports panics and bytes allocated",
+         "For every enumerated hostile encoding the decoders of internal/... and pkg/client return (value or error) without panicking and allocate at most 16 MiB + 256 x input length; a child process that dies is a violation. Regions decoded by the tokenized/pkg dependency (wire.MsgTx, bsor) are sampled thinly and their failures are listed as known findings.",
+         "Enumeration is over offsets x a fixed set of hostile values for one valid encoding per type and run; other field values are sampled. The allocation bound is the harness's (the statement says 'bounded by input size').", "6 C20"),
  "C09": ("exploration",
          "deterministic simulation at the storage seam: reference-model comparison of the real block repository over seeded operation sequences with both delete-missing semantics and injected per-operation disk errors; exhaustive revert-boundary sweep",
          "After every operation of every explored add/revert/save/load/query sequence the real BlockRepository (and Node.GetHeaders) answers exactly like a slice-of-headers model; a revert that fails through an injected disk error leaves all answers unchanged; all revert targets within 2 of each 1000-header boundary and of the tip are enumerated for store sizes around the boundaries, saved and unsaved, under both back-end behaviours.",
